@@ -895,6 +895,8 @@ def replay(path):
         print(json.dumps(r, indent=1)[:4000])
         return 1
     case, sec = r['replay']['case'], r['replay']['section']
+    if sec == 'end-to-end':
+        return _pl().replay_e2e(case, 'C14', path)
     line_fn, impl_fn, oracle_fn = SECTIONS[sec]
     try:
         got = impl_fn(case)
@@ -924,6 +926,10 @@ LEVEL_TEXT = ('Lean theorems over the statement-by-statement model of the four l
               '= the declarative fold declaredTables), process_column_spec / trace_process_columns_spec (a line is formatted '
               'with the tables as of its trigger event: name(pid) of the declared pid, Error: tid N when never declared), '
               'kevent_process_column_spec (event lines: thread map alone), samples_thread_info_is_bit0. '
+              'End to end over Model/EndToEnd (bytes of a dump -> lines): e2e_line_shape (line i = _format_trace of trace i of '
+              'traces() on the tables at its yield; nothing added, reordered or dropped but the traces from the first rendering '
+              'exception on), e2e_process_column / e2e_process_column_unfiltered (line i is the join of its columns and its '
+              'process column is processSpec of declaredTables of the prefix ending with its trigger event), e2e_unreadable. '
               'Model tied to the code by differential runs of formatted_kevents / formatted_traces / _format_callstack / '
               '_format_log for all 64 settings, colour on and off, and of the Python format primitives.')
 LEVEL_NOTE = ('Partial: colour transparency of trace lines assumes the highlighter can be erased (pygments rewrites carriage '
